@@ -281,6 +281,14 @@ func checkC12(c *Ctx) {
 	c.retentionCancel("C12/CANCEL")
 	// ---- D4
 	c.c12Visit()
+	// a delivery racing the scan must not be lost with a mailbox entry the scan's removal
+	// drops (decided by C07's entries-persist rule and C09's create rule)
+	nB := c.borrow(func(c2 *Ctx) {
+		if sm := c2.stores(); sm.ok {
+			c2.c07Mem(sm)
+		}
+	}, "C07/ID/monotone/mem.Store.boxes:entries-persist", "C12/RACE/entries-persist", "memory store: mailbox entries are never deleted or replaced, so a message delivered while the scan removes the last expired message of that mailbox is not dropped with the entry")
+	r.Floor("C12/RACE/entries-persist", "borrowed obligations", nB, 1)
 }
 
 func itoa(k int64) string {
